@@ -321,7 +321,9 @@ def native_hybrid_shard(R, S, ntpg, comm, cp, seed, steps=5):
             res = D.threaded(R * S, fn, timeout=120)
         except TimeoutError:
             # persistent hang of the thread simulator (after repeated attempts): collective-trace equality is C06's property (known findings
-            # F5 / F6); for this property the sample is inconclusive and is not counted as a violation
+            # F5 / F6); for this property the sample is inconclusive and is not counted as a violation.  Further simulated runs of this
+            # check invocation are skipped (each persistent hang costs minutes).
+            _HUNG["n"] += 1
             return None
         except BaseException as e:  # noqa
             return f"raised {type(e).__name__}: {str(e)[:300]}"
@@ -343,6 +345,9 @@ def native_hybrid_shard(R, S, ntpg, comm, cp, seed, steps=5):
     return None
 
 
+_HUNG = {"n": 0}
+
+
 def bounded(tier, seed):
     n = 3 if tier == "quick" else 20
     evals, viol, distinct = 0, [], set()
@@ -358,6 +363,8 @@ def bounded(tier, seed):
     combos = [(2, 2, -1)] if tier == "quick" else [(2, 2, -1), (4, 1, 2), (2, 1, -1)]
     for (R, S, ntpg), comm, cp in itertools.product(combos, ("f32", "bf16"), (False, True)):
         for k in range(1 if tier == "quick" else 2):
+            if _HUNG["n"]:
+                continue
             try:
                 bad = native_hybrid_shard(R, S, ntpg, comm, cp, seed * 10 + k)
             except BaseException as e:  # noqa
